@@ -11,8 +11,8 @@ from . import terms as T
 from .terms import Ref, Int, Bool, Str
 from .contracts import Schema
 
-Z3_TIMEOUT_MS = int(os.environ.get("PYVC_Z3_TIMEOUT_MS", "20000"))
-CVC5_TIMEOUT_MS = int(os.environ.get("PYVC_CVC5_TIMEOUT_MS", "30000"))
+Z3_TIMEOUT_MS = int(os.environ.get("PYVC_Z3_TIMEOUT_MS", "40000"))
+CVC5_TIMEOUT_MS = int(os.environ.get("PYVC_CVC5_TIMEOUT_MS", "20000"))
 MAX_UNIVERSE = 60
 
 
@@ -39,6 +39,95 @@ def _field_read_arg(s):
 _INST_CACHE = {}      # (id(schema), ids of the argument terms) -> (schema, terms, instance)      [per process]
 _SCAN_CACHE = {}      # formula id -> (formula, found, fields, axioms)                              [per process]
 _CLS_SEEN = None
+
+
+RELEVANCE = os.environ.get("PYVC_RELEVANCE", "1") == "1"
+_APPS_CACHE = {}      # formula id -> (formula, frozenset of ids of its uninterpreted applications)
+_LAST_WAITING = []
+_KEYS_CACHE = {}      # (formula id, instantiation term ids) -> (formula, keys, direct)
+_c = z3.z3core
+
+
+def _apps_of(f):
+    """ids of all uninterpreted applications (arity > 0) occurring in f"""
+    hit = _APPS_CACHE.get(f.get_id())
+    if hit is not None:
+        return hit[1]
+    ctx = z3.main_ctx().ref()
+    out = set()
+    seen = set()
+    stack = [f.as_ast()]
+    while stack:
+        a = stack.pop()
+        aid = _c.Z3_get_ast_id(ctx, a)
+        if aid in seen:
+            continue
+        seen.add(aid)
+        if _c.Z3_get_ast_kind(ctx, a) != z3.Z3_APP_AST:
+            continue
+        app = _c.Z3_to_app(ctx, a)
+        n = _c.Z3_get_app_num_args(ctx, app)
+        if n and _c.Z3_get_decl_kind(ctx, _c.Z3_get_app_decl(ctx, app)) == z3.Z3_OP_UNINTERPRETED:
+            out.add(aid)
+        for i in range(n):
+            stack.append(_c.Z3_get_app_arg(ctx, app, i))
+    out = frozenset(out)
+    _APPS_CACHE[f.get_id()] = (f, out)
+    return out
+
+
+def _inst_keys(g, tup):
+    """trigger terms of the instance g of a schema at the terms `tup`: the uninterpreted applications in g that have one of
+    the instantiation terms as a direct argument; direct = g also constrains an instantiation term by a plain (dis)equality
+    or arithmetic atom, which no trigger can anticipate"""
+    tids = tuple(t.get_id() for t in tup)
+    key = (g.get_id(), tids)
+    hit = _KEYS_CACHE.get(key)
+    if hit is not None:
+        return hit[1], hit[2]
+    tset = set(tids)
+    ctx = z3.main_ctx().ref()
+    keys = set()
+    direct = False
+    seen = set()
+    stack = [g.as_ast()]
+    while stack:
+        a = stack.pop()
+        aid = _c.Z3_get_ast_id(ctx, a)
+        if aid in seen:
+            continue
+        seen.add(aid)
+        if aid in tset:
+            continue            # inside an instantiation term: its own subterms are already known
+        if _c.Z3_get_ast_kind(ctx, a) != z3.Z3_APP_AST:
+            continue
+        app = _c.Z3_to_app(ctx, a)
+        n = _c.Z3_get_app_num_args(ctx, app)
+        if not n:
+            continue
+        dk = _c.Z3_get_decl_kind(ctx, _c.Z3_get_app_decl(ctx, app))
+        has = False
+        for i in range(n):
+            ch = _c.Z3_get_app_arg(ctx, app, i)
+            if _c.Z3_get_ast_id(ctx, ch) in tset:
+                has = True
+            stack.append(ch)
+        if has:
+            if dk == z3.Z3_OP_UNINTERPRETED:
+                keys.add(aid)
+            elif dk not in (z3.Z3_OP_ITE,):
+                direct = True      # x == t, distinct, arithmetic, sequence constructors over x ...
+    _KEYS_CACHE[key] = (g, frozenset(keys), direct)
+    return frozenset(keys), direct
+
+
+def _conjuncts(f):
+    if z3.is_and(f):
+        out = []
+        for ch in f.children():
+            out.extend(_conjuncts(ch))
+        return out
+    return [f]
 
 
 def _scan_formula(f, class_axioms):
@@ -77,11 +166,17 @@ def build_query(ob, class_axioms, base_facts, rounds=3):
     cnt_atoms = {}
     done = set()
     ninst = 0
+    known = set()          # ids of the uninterpreted applications occurring in the query so far
+    waiting = []           # instance conjuncts none of whose trigger terms occurs yet
     for _rnd in range(rounds):
         new = []
         for f in work:
             found, fields, ax = _scan_formula(f, class_axioms)
             new.extend(ax)
+            if RELEVANCE:
+                known |= _apps_of(f)
+                for a_ in ax:
+                    known |= _apps_of(a_)
             for t in found["ref"]:
                 U.setdefault(t.get_id(), t)
             for t in found["cnt"]:
@@ -105,11 +200,20 @@ def build_query(ob, class_axioms, base_facts, rounds=3):
                 d = ftuples.setdefault(fname, {})
                 for tp in tups:
                     d.setdefault(tuple(a.get_id() for a in tp), tp)
+        if RELEVANCE and waiting:
+            still = []
+            for (g_, keys_) in waiting:
+                if keys_ & known:
+                    new.append(g_)
+                else:
+                    still.append((g_, keys_))
+            waiting = still
         Ul = list(U.values())
         if len(Ul) > MAX_UNIVERSE:
             Ul.sort(key=lambda t: len(t.sexpr()))
             Ul = Ul[:MAX_UNIVERSE]
         for si, sch in enumerate(ob.schemas):
+            universe_driven = False
             if sch.trigger and sch.trigger[0] == "cnt-args":
                 # y ranges over the elements whose count in one of the given sequence terms is mentioned (plus the units)
                 want = {t.get_id() for t in sch.trigger[1]}
@@ -136,6 +240,7 @@ def build_query(ob, class_axioms, base_facts, rounds=3):
                                 tuples.append(tp + rest)
             elif len(sch.sorts) == 1 and sch.sorts[0].eq(Ref):
                 tuples = [(t,) for t in Ul]
+                universe_driven = True      # no trigger matched these instances: keep only those that touch the query
             elif len(sch.sorts) == 2 and all(s_.eq(Ref) for s_ in sch.sorts) and not sch.trigger:
                 if sch.pair_from:
                     tuples = [pv for (k_, pv) in pairs.items() if k_[2].startswith(sch.pair_from)]
@@ -143,6 +248,7 @@ def build_query(ob, class_axioms, base_facts, rounds=3):
                     tuples = list(pairs.values())
             elif all(s_.eq(Ref) for s_ in sch.sorts):
                 tuples = list(itertools.product(Ul, repeat=len(sch.sorts)))
+                universe_driven = True
             else:
                 raise ValueError(f"schema {sch.name}: non-reference sorts need a trigger")
             sid = id(sch)
@@ -159,8 +265,16 @@ def build_query(ob, class_axioms, base_facts, rounds=3):
                     f = hit[2]
                 if z3.is_true(f):
                     continue
-                new.append(f)
                 ninst += 1
+                if not RELEVANCE or ob.expect == "sat" or not universe_driven or not sch.filter:
+                    new.append(f)
+                    continue
+                for g_ in _conjuncts(f):
+                    keys_, direct_ = _inst_keys(g_, tup)
+                    if direct_ or not keys_ or (keys_ & known):
+                        new.append(g_)
+                    else:
+                        waiting.append((g_, keys_))
         work = []
         for f in new:
             if f.get_id() not in allf:
@@ -168,6 +282,8 @@ def build_query(ob, class_axioms, base_facts, rounds=3):
                 work.append(f)
         if not work:
             break
+    global _LAST_WAITING
+    _LAST_WAITING = waiting
     return list(allf.values()), ninst
 
 
